@@ -273,9 +273,43 @@ def r09e(ctx):
     ctx.floor("R09e", n, 4, "third-party parser calls on loader paths")
 
 
+def r09f(ctx):
+    m = ctx.model
+    ctx.rule("R09f", "sibling loaders read bytes the same way: every open() of the input file on a JSON/JSON5/YAML/plist loading "
+                     "path uses binary mode, so the text encoding is decided by the parser from the bytes, not by the locale for "
+                     "some formats only (the same UTF-8 data would load from one format and fail, or be mis-decoded, from another)")
+    fts = m.filetypes()
+    n = 0
+    modes = {}
+    for q, info in sorted(fts.items()):
+        if info["name"] not in FORMATS:
+            continue
+        for f in loader_chain(m, m.method(q, "build_tree")):
+            for c in walk_no_nested(f.node):
+                if isinstance(c, ast.Call) and call_name(c) == "open" and c.args:
+                    mode = c.args[1] if len(c.args) > 1 else next((k.value for k in c.keywords if k.arg == "mode"), None)
+                    mv = mode.value if isinstance(mode, ast.Constant) else ("r" if mode is None else None)
+                    modes[(info["name"], f.qual)] = (f, c, mv)
+    n = len(modes)
+    binary = [k for k, v in modes.items() if v[2] is not None and "b" in v[2]]
+    for (fmt, fq), (f, c, mv) in sorted(modes.items()):
+        if mv is None:
+            ctx.inconclusive("R09f", f.file, f.short, c, f"{fmt} open mode", "open() mode is not a constant")
+        elif "b" in mv:
+            ctx.proved("R09f", f.file, f.short, c, f"{fmt} open mode", f"binary (`{norm(c, 40)}`)")
+        else:
+            others = sorted({k[0] for k in binary})
+            ctx.violation("R09f", f.file, f.short, c, f"{fmt} open mode",
+                          f"the {fmt} loader opens its file with `{norm(c, 40)}` (text mode: decoded with the locale's encoding) while "
+                          f"the {', '.join(others)} loader(s) read bytes: under LC_ALL=C the same UTF-8 data loads from {others[0] if others else 'another format'} "
+                          f"but fails to decode from {fmt}, and a byte order mark is an error for {fmt} only")
+    ctx.floor("R09f", n, 4, "open() calls on loader paths")
+
+
 def run(ctx):
     r09a(ctx)
     r09e(ctx)
+    r09f(ctx)
     r09b(ctx)
     r09c(ctx)
     from . import c14
